@@ -19,7 +19,7 @@ import (
 	. "verifharness/lib"
 )
 
-func main() { Main("C02", run, nil) }
+func main() { Main("C02", run, map[string]func([]string){"oversize": oversizeHelper}) }
 
 const caseType = "wire_case + framer_case"
 const checkFn = "(fun c => match c with inl a => wire_check a | inr b => framer_check b end)"
